@@ -8,7 +8,7 @@
             | (alloc SLOT ID) | (mk SLOT CLS CYC "mcls" (<argtok>*) NID) | (drop SLOT)
             | (reclaim ID) | (sweep) | (gc) | (rebuild SRC DST ((OLD NEW)*))
    argtok ::= (i INT) | (b BOOL) | (f P Q) | nz | (nan OID) | (s "str") | none | (o ID) | (a ID)
-            | lp | rp | fl | fr | dict
+            | lp | rp | fl | fr | dict | sl | el
    obs    ::= (ok (roots (SLOT ID)*) (objs (ID CLS STAMP)*) (arrs (ID SERIAL)*) (keys (CLS ID tok*)*)
                   (ncache N M))
             | (err NAME STEPINDEX)     -- the run stops at the first step whose guard fails
@@ -27,6 +27,8 @@ def parseArgTok : Sexp → Option ArgTok
   | .atom "fl" => some .fl
   | .atom "fr" => some .fr
   | .atom "dict" => some .dict
+  | .atom "sl" => some .sl
+  | .atom "el" => some .ellipsis
   | .list [.atom "i", z] => z.asInt?.map .int
   | .list [.atom "b", b] => b.asBool?.map .bool
   | .list [.atom "f", p, q] => do some (.flt (← p.asInt?) (← q.asNat?))
@@ -75,6 +77,7 @@ def tokSexp : Tok → Sexp
   | .rp => .atom "rp"
   | .fl => .atom "fl"
   | .fr => .atom "fr"
+  | .ellipsis => .atom "el"
 
 /-- Observation; objects allocated before `minStamp` (the pinned prelude) are left out of
     `objs`/`keys` (their table entries never change; hits on them show in `roots`). -/
